@@ -325,3 +325,22 @@ def units(prop, tier):
         per_buf('encrypt', PERMITTED['encrypt'], one)
         per_buf('decrypt', PERMITTED['decrypt'], one)
     return out
+
+
+# NOT PROVED: hexdigest / hexverify (string formatting, binascii: outside the subset); output= as writable memoryview / aliased with the input.
+# Domain note (reported): no AAD / ciphertext length check in the class; `_len_aad`, `_len_ct` <= 2^64-1 are preconditions.
+#
+# Vacuity / strength check (tools/mut.py, quick tier, 2026-09-26): semantic mutants -> exit 1 on the named obligation; benign -> exit 0.
+#   C09  encrypt: `_authenticator.update(result)` -> `update(plaintext)`          -> encrypt.ensures.stream_first
+#   C09  _pad_aad: `16 - (self._len_aad & 0x0F)` -> `15 - ...`                    -> _pad_aad.ensures.stream
+#   C09  update: `self._len_aad += len(data)` -> `+= 1`                           -> update.ensures.inv_len_aad, .len_aad
+#   C09  benign: encrypt's local `result` split into `ct` / `result`              -> exit 0
+#   C10  decrypt: successor `("decrypt","verify")` + "digest"                     -> decrypt.ensures.next
+#   C10  verify: guard -> `if False`                                              -> verify.raises_iff.TypeError (state `encrypting`)
+#   C01  _compute_mac: le64(len ct) written big endian (no `[::-1]`)              -> _compute_mac.lemma.stream
+#   C01  _compute_mac: first length field `_len_aad` -> `_len_ct`                 -> _compute_mac.lemma.stream
+#   C01  verify: `data=received_mac_tag` -> `received_mac_tag[:16]`               -> verify.raises_iff.ValueError
+#   C02  new: `_HChaCha20(key, nonce[:16])` -> `nonce[8:24]`                      -> new.ensures.key
+#   C02  new: XChaCha nonce prefix `\0\0\0\0` -> `\0\0\0\1`                       -> new.ensures.cipher_nonce
+#   C02  new: `len(nonce) in (8, 12)` -> `(8, 12, 16)`                            -> new.raises_iff.TypeError.only_if
+#   C02  __init__: `self._cipher.seek(64)` -> `seek(0)`                           -> __init__.ensures.inv_pos
